@@ -38,33 +38,48 @@ impl<const N: usize> Memo<N> {
     pub fn get(&mut self, a: u64, b: u64, fresh: (u64, u64)) -> (u64, u64) {
         self.get3(a, b, 0, fresh)
     }
-    /// Ackermann constraint form: the result of call i is the fresh symbolic value, constrained (assumed)
-    /// to equal the result of every earlier call with the same key.  Any real function satisfies the
-    /// constraints (choose fresh = f(key)), so nothing is excluded; compared with "first match wins" ite
-    /// chains the SAT back end only sees implications `key_j == key_i ==> v_j == v_i` (measured 10-100x faster).
+    /// Ackermann table with two selectable encodings (static `ACK_ASSUME`, set concretely at the start of a harness):
+    ///  * default, value encoding: "first earlier call with the same key wins" (ite chain).  Where a key
+    ///    comparison folds to `true` syntactically (code and spec pass the very same SSA value) the result
+    ///    IS the earlier result symbol, so REAL arithmetic applied to it downstream is shared structurally;
+    ///  * ACK_ASSUME, constraint encoding: the result is the fresh symbolic value and key_j == key_i ==>
+    ///    v_j == v_i is ASSUMED for every earlier call.  Any real function satisfies the constraints
+    ///    (choose fresh = f(key)), so nothing is excluded.  Used where ALL arithmetic is uninterpreted: the
+    ///    SAT back end then only sees implications between equalities (measured 10x faster than ite chains).
     #[inline(always)]
     pub fn get3(&mut self, a: u64, b: u64, c: u64, fresh: (u64, u64)) -> (u64, u64) {
         let i = self.calls;
         assert!(i < N, "uf memo table overflow");
-        let mut j = 0;
-        while j < N && j < i {
-            {
+        let mut v = fresh;
+        if unsafe { ACK_ASSUME } {
+            let mut j = 0;
+            while j < N && j < i {
                 let hit = self.k0[j] == a && self.k1[j] == b && self.k2[j] == c;
                 #[cfg(kani)]
-                kani::assume(!hit || (self.v0[j] == fresh.0 && self.v1[j] == fresh.1));
+                kani::assume(!hit || (self.v0[j] == v.0 && self.v1[j] == v.1));
                 let _ = hit;
+                j += 1;
             }
-            j += 1;
+        } else {
+            // reverse order: the earliest matching entry is applied last and wins
+            let mut j = N;
+            while j > 0 {
+                j -= 1;
+                if j < i && self.k0[j] == a && self.k1[j] == b && self.k2[j] == c {
+                    v = (self.v0[j], self.v1[j]);
+                }
+            }
         }
         self.k0[i] = a;
         self.k1[i] = b;
         self.k2[i] = c;
-        self.v0[i] = fresh.0;
-        self.v1[i] = fresh.1;
+        self.v0[i] = v.0;
+        self.v1[i] = v.1;
         self.calls = i + 1;
-        fresh
+        v
     }
 }
+pub static mut ACK_ASSUME: bool = false;
 
 /// key of a float argument: its bit pattern, with every NaN mapped to one canonical key (results are
 /// compared as IEEE values, NaN ~ NaN; the SMT back end leaves the bits of a NaN unspecified)
